@@ -27,7 +27,7 @@ def run(patch):
 
 
 if __name__ == '__main__':
-    patches = sys.argv[1:] or sorted(glob.glob('/tmp/ref/*/r*.diff')) + sorted(glob.glob(os.path.join(VERIF, 'seeded', 'twin-*', 'patch.diff')))
+    patches = sys.argv[1:] or sorted(glob.glob(os.path.join(VERIF, 'seeded', 'twin-*', 'patch.diff')))
     alarms = 0
     with ThreadPoolExecutor(8) as ex:
         for patch, res, outs in ex.map(run, patches):
